@@ -316,6 +316,12 @@ def opOpt (st : St α) (id op : String) : P (St α × List String) := do
       match getSlot st.opt slot with
       | none => return (st, [s!"{id} noslot"])
       | some o => return ({ st with opt := putSlot st.opt ns o }, [s!"{id} ok"])
+  | "opt_move" =>
+      -- move construction: the new object has the value of the source, the source is gone afterwards (the harness destroys it)
+      let slot ← pNat; let ns ← pNat
+      match getSlot st.opt slot with
+      | none => return (st, [s!"{id} noslot"])
+      | some o => return ({ st with opt := putSlot (st.opt.filter (·.1 != slot)) ns o }, [s!"{id} ok"])
   | "opt_init" =>
       -- slot mode N nrows t0 times(N)… P(nrows)… bc…   (N = number of durations, resp. of time points; values may be non-finite)
       let slot ← pNat; let mode ← tok; let n ← pNat; let nrows ← pNat
